@@ -269,9 +269,10 @@ func registerIntrinsics(e *Engine) {
 	}
 
 	I["strings.Contains"] = func(e *Engine, fr *frame, a []Value) Value {
-		if c, ok := a[0].(*ChoiceStr); ok {
-			sub := a[1].(string)
-			return e.liftStr(c, func(x string) Value { return strings.Contains(x, sub) })
+		_, c0 := a[0].(*ChoiceStr)
+		_, c1 := a[1].(*ChoiceStr)
+		if c0 || c1 {
+			return e.liftBool2(a[0], a[1], strings.Contains)
 		}
 		if s, ok := a[0].(string); ok {
 			return strings.Contains(s, a[1].(string))
